@@ -1,17 +1,16 @@
 SPECIFICATION Spec
 CONSTANTS
-  MaxB = 4
+  MaxB = 3
   NPs = {1}
-  MaxPost = 1
+  MaxPost = 0
   Reserve = TRUE
   Titles <- TitleClasses
-  Stack = 64
+  Stack = 2
   WorkList = FALSE
   DestSpellings = {"none"}
   FollowRefs = FALSE
   IdLimits = {1000000}
   CheckedIds = FALSE
-  Emit = TRUE
-INVARIANTS RefinesForest RefinesAdjust RefinesFresh RefinesLinks RefinesCarries RefinesToc Verdict NoAbort RefusedOk EmitInv
-PROPERTIES Reserved
+  Emit = FALSE
+INVARIANTS NoAbort
 CHECK_DEADLOCK FALSE
